@@ -18,7 +18,7 @@ import (
 // ---- values
 
 type val struct {
-	t byte // 'i' int, 'b' bool, 's' string, 'l' list of ints
+	t byte // 'i' int, 'b' bool, 's' string, 'l' list of ints (a numeric string, static type 'n', is a string)
 	i int64
 	b bool
 	s string
@@ -100,6 +100,18 @@ var pools = map[byte][]leaf{
 		lf("lit", sv("ab"), "\"ab\""),
 		lf("index", sv("abab"), "ss[1]", "ss[1]", "ss[  1  ]"),
 	},
+	// numeric strings: strings that hold an integer in its canonical decimal spelling. Neighbours in
+	// the pool (the operands of `N0 < N1` under the six rotations) are ordered differently as numbers
+	// and as texts in four of the six pairs: 10/9, -2/-1, 30/5, 5/10 (9/-2 and -1/30 agree), and
+	// n[4] = "30" meets xs[1] = 30, n[5] = "5" meets o.n = 5 in `N0 == I1` / `I0 == N1`.
+	'n': {
+		lf("lit", sv("10"), "'10'"),
+		lf("var", sv("9"), "n"),
+		lf("lit", sv("-2"), "'-2'"),
+		lf("attr", sv("-1"), "o.m"),
+		lf("lit", sv("30"), "\"30\""),
+		lf("index", sv("5"), "ns[1]", "ns[1]", "ns[  1  ]"),
+	},
 	'l': {
 		lf("var", val{t: 'l', l: []int64{2, 30, 5}}, "xs"),
 		lf("list", val{t: 'l', l: []int64{3, 7}}, "[3, 7]", "[3,7]", "[  3  ,  7  ]"),
@@ -117,11 +129,12 @@ const nRot = 12 // lcm of the pool sizes
 // the context every template is rendered with (must agree with the pools above)
 func context() map[string]interface{} {
 	return map[string]interface{}{
-		"a": 3, "b": 7, "t": true, "f": false, "s": "ab",
+		"a": 3, "b": 7, "t": true, "f": false, "s": "ab", "n": "9",
+		"ns": []interface{}{"7", "5"},
 		"xs": []interface{}{2, 30, 5},
 		"bs": []interface{}{true, false},
 		"ss": []interface{}{"ba", "abab"},
-		"o": map[string]interface{}{"n": 5, "s": "ba", "f": false, "t": true,
+		"o": map[string]interface{}{"n": 5, "s": "ba", "f": false, "t": true, "m": "-1",
 			"xs": []interface{}{12, 7}},
 		"seq": []interface{}{100, 101, 102, 103, 104, 105, 106, 107, 108, 109},
 	}
@@ -169,19 +182,25 @@ type bspec struct {
 	lt, rt byte
 	res    byte
 	core   bool
+	ns     byte // 0: no numeric string involved; 1: numeric-string typing kept in the largest classes; 2: the others
 }
 
 var bspecs = []bspec{
-	{"or", 'b', 'b', 'b', true}, {"and", 'b', 'b', 'b', true},
-	{"==", 'i', 'i', 'b', true}, {"==", 's', 's', 'b', false}, {"==", 'b', 'b', 'b', true},
-	{"!=", 'i', 'i', 'b', true}, {"!=", 's', 's', 'b', false}, {"!=", 'b', 'b', 'b', false},
-	{"<", 'i', 'i', 'b', true}, {">", 'i', 'i', 'b', false}, {"<=", 'i', 'i', 'b', false}, {">=", 'i', 'i', 'b', true},
-	{"in", 'i', 'l', 'b', true}, {"not in", 'i', 'l', 'b', false},
-	{"matches", 's', 'r', 'b', false}, {"starts with", 's', 's', 'b', true}, {"ends with", 's', 's', 'b', false},
-	{"+", 'i', 'i', 'i', true}, {"-", 'i', 'i', 'i', true},
-	{"~", 'i', 'i', 's', true}, {"~", 'i', 's', 's', false}, {"~", 's', 'i', 's', true}, {"~", 's', 's', 's', true},
-	{"*", 'i', 'i', 'i', true}, {"/", 'i', 'i', 'i', true}, {"%", 'i', 'i', 'i', true},
-	{"^", 'i', 'i', 'i', true},
+	{"or", 'b', 'b', 'b', true, 0}, {"and", 'b', 'b', 'b', true, 0},
+	{"==", 'i', 'i', 'b', true, 0}, {"==", 's', 's', 'b', false, 0}, {"==", 'b', 'b', 'b', true, 0},
+	{"!=", 'i', 'i', 'b', true, 0}, {"!=", 's', 's', 'b', false, 0}, {"!=", 'b', 'b', 'b', false, 0},
+	{"<", 'i', 'i', 'b', true, 0}, {">", 'i', 'i', 'b', false, 0}, {"<=", 'i', 'i', 'b', false, 0}, {">=", 'i', 'i', 'b', true, 0},
+	{"in", 'i', 'l', 'b', true, 0}, {"not in", 'i', 'l', 'b', false, 0},
+	{"matches", 's', 'r', 'b', false, 0}, {"starts with", 's', 's', 'b', true, 0}, {"ends with", 's', 's', 'b', false, 0},
+	{"+", 'i', 'i', 'i', true, 0}, {"-", 'i', 'i', 'i', true, 0},
+	{"~", 'i', 'i', 's', true, 0}, {"~", 'i', 's', 's', false, 0}, {"~", 's', 'i', 's', true, 0}, {"~", 's', 's', 's', true, 0},
+	{"*", 'i', 'i', 'i', true, 0}, {"/", 'i', 'i', 'i', true, 0}, {"%", 'i', 'i', 'i', true, 0},
+	{"^", 'i', 'i', 'i', true, 0},
+	// numeric strings (static type 'n'): ordered by numeric value, equal to the number they spell
+	{"<", 'n', 'n', 'b', false, 1}, {">", 'n', 'n', 'b', false, 2}, {"<=", 'n', 'n', 'b', false, 2}, {">=", 'n', 'n', 'b', false, 1},
+	{"==", 'n', 'i', 'b', false, 1}, {"==", 'i', 'n', 'b', false, 2}, {"!=", 'n', 'i', 'b', false, 2}, {"!=", 'i', 'n', 'b', false, 1},
+	{"<", 'n', 'i', 'b', false, 2}, {">=", 'i', 'n', 'b', false, 2},
+	{"~", 'i', 'i', 'n', false, 1},
 }
 
 type uspec struct {
@@ -201,12 +220,17 @@ var uspecs = []uspec{
 type genKey struct {
 	k, u int
 	typ  byte
-	core bool
+	core genMode
 }
+
+// genMode restricts the binary typings: core = one or two representatives per (level, typing)
+// (unused by the present tiers); nsRep = of the numeric-string typings only the representatives
+// `<` `>=` (n,n), `==` (n,i), `!=` (i,n) and `~` (i,i) -> n.
+type genMode struct{ core, nsRep bool }
 
 var genMemo = map[genKey][]*node{}
 
-func gen(k, u int, typ byte, core bool) []*node {
+func gen(k, u int, typ byte, core genMode) []*node {
 	key := genKey{k, u, typ, core}
 	if r, ok := genMemo[key]; ok {
 		return r
@@ -220,7 +244,7 @@ func gen(k, u int, typ byte, core bool) []*node {
 
 // genInto streams the same trees to emit (used for the top level so that the largest class is
 // never materialised).
-func genInto(k, u int, typ byte, core bool, emit func(*node)) {
+func genInto(k, u int, typ byte, core genMode, emit func(*node)) {
 	if k == 0 && u == 0 {
 		emit(mk('a', "", typ))
 		return
@@ -246,7 +270,7 @@ func genInto(k, u int, typ byte, core bool, emit func(*node)) {
 	}
 	if typ != 'l' {
 		for _, s := range bspecs {
-			if s.res != typ || (core && !s.core) {
+			if s.res != typ || (core.core && !s.core) || (core.nsRep && s.ns > 1) {
 				continue
 			}
 			for kl := 0; kl < k; kl++ {
@@ -447,23 +471,35 @@ func binop(op string, l, r val) (val, error) {
 	}
 	switch op {
 	case "==", "!=":
-		if l.t != r.t || l.t == 'l' {
+		if l.t == 'l' || r.t == 'l' {
 			return bad()
+		}
+		if l.t != r.t {
+			// a numeric string equals the number it spells; every other mixture is left open
+			a, aok := numeric(l)
+			b, bok := numeric(r)
+			if !aok || !bok || l.t == 'b' || r.t == 'b' {
+				return bad()
+			}
+			return bv((a == b) == (op == "==")), nil
 		}
 		return bv(l.eq(r) == (op == "==")), nil
 	case "<", ">", "<=", ">=":
-		if l.t != 'i' || r.t != 'i' {
+		// numeric comparison: of integers, and of strings that spell integers (never of other strings)
+		a, aok := numeric(l)
+		b, bok := numeric(r)
+		if !aok || !bok {
 			return bad()
 		}
 		switch op {
 		case "<":
-			return bv(l.i < r.i), nil
+			return bv(a < b), nil
 		case ">":
-			return bv(l.i > r.i), nil
+			return bv(a > b), nil
 		case "<=":
-			return bv(l.i <= r.i), nil
+			return bv(a <= b), nil
 		}
-		return bv(l.i >= r.i), nil
+		return bv(a >= b), nil
 	case "in", "not in":
 		if l.t != 'i' || r.t != 'l' {
 			return bad()
@@ -534,6 +570,23 @@ func binop(op string, l, r val) (val, error) {
 		return iv(z.Int64()), nil
 	}
 	return val{}, evalErr("operator " + op)
+}
+
+// numeric: the number an operand of a comparison stands for — an integer, or a string that holds
+// an integer within +-2^53 in its canonical decimal spelling (no sign on zero, no leading zeros, no
+// blanks, no fraction, no exponent: the statement says nothing about how those would be read).
+func numeric(v val) (int64, bool) {
+	switch v.t {
+	case 'i':
+		return v.i, true
+	case 's':
+		x, err := strconv.ParseInt(v.s, 10, 64)
+		if err != nil || strconv.FormatInt(x, 10) != v.s || x > maxExact || x < -maxExact {
+			return 0, false
+		}
+		return x, true
+	}
+	return 0, false
 }
 
 // value evaluates with short circuit and returns the sorted set of evaluated leaf ordinals.
@@ -844,6 +897,15 @@ func (v sval) String() string {
 	return val{t: 'l', l: v.l}.String()
 }
 
+// num: the value of an operand of a comparison (a numeric string counts as its number)
+func (v sval) num() float64 {
+	if v.t == 's' {
+		f, _ := strconv.ParseFloat(v.s, 64)
+		return f
+	}
+	return v.f
+}
+
 type shadow struct {
 	leaves  []leaf
 	negZero bool // a division or power produced negative zero
@@ -917,18 +979,18 @@ func (e *shadow) eval(n *node, base int) sval {
 		return sval{t: 's', s: l.String() + r.String()}
 	case "==", "!=":
 		eq := l.String() == r.String()
-		if l.t == 'i' {
-			eq = l.f == r.f
+		if l.t == 'i' || r.t == 'i' {
+			eq = l.num() == r.num()
 		}
 		return boolean(eq == (n.op == "=="))
 	case "<":
-		return boolean(l.f < r.f)
+		return boolean(l.num() < r.num())
 	case ">":
-		return boolean(l.f > r.f)
+		return boolean(l.num() > r.num())
 	case "<=":
-		return boolean(l.f <= r.f)
+		return boolean(l.num() <= r.num())
 	case ">=":
-		return boolean(l.f >= r.f)
+		return boolean(l.num() >= r.num())
 	case "in", "not in":
 		found := false
 		for _, x := range r.l {
